@@ -19,6 +19,12 @@
 //     is 0, no f starts, no goroutine with a parallel.MapStream frame created by the scenario is
 //     alive, the source was closed exactly once and saw no Next after / during its Close.
 //
+// Source behaviours: plain (instant / small delays, honouring ctx or not); failing after p items;
+// blocking in Next until its ctx is done after k items (a pipe with nothing to deliver) while f
+// fails on a handed-out item, or while Close is called; consumer-dependent (pull m returns only
+// once the consumer has received m-d results, d >= 0 — always satisfiable by a correct
+// implementation because those results only need items < m).
+//
 // Deliberately NOT demanded (the statement leaves these open): how many of the results that precede
 // an error are delivered; which of several errors is reported; anything about Next calls after the
 // first error; how often f is invoked per item (recorded only); behaviour after the caller cancels
@@ -58,7 +64,8 @@ func main() {
 	vkit.Main("C14", "exploration", func(r *vkit.Report) {
 		r.SetRule("case = one run of MapIterator or MapStream on a tuple (api, length, parallelism, bufferSize, f-latency pattern, " +
 			"consumer pace, fault plan [none | f fails at given indices | source fails after p items | both | Close after k results with f " +
-			"ignoring / honouring / blocking on its context | caller cancels the construction context], per-call context expiry on/off); " +
+			"ignoring / honouring / blocking on its context | caller cancels the construction context | source blocks in Next until ctx done " +
+			"after k items while f fails on a handed-out item | same with Close], source consumer-dependent or not (pull m waits for m-d received results), per-call context expiry on/off); " +
 			"the (length, parallelism, bufferSize) grid of 150 cells is enumerated by case index, the rest is drawn from the seed; " +
 			"parallelism -1 counts once per GOMAXPROCS value it resolved to. " +
 			"non-trivial = the source had >= 2 items (order can matter); distinct = by the tuple with fault / close positions bucketed " +
@@ -85,7 +92,7 @@ func main() {
 			r.Floor("MapStream cases completed", r.Table("cases", "stream"), int64(nStream))
 			r.Floor("grid cells (length x parallelism x bufferSize) run with MapIterator", int64(st.cells("iter")), gridCells)
 			r.Floor("grid cells (length x parallelism x bufferSize) run with MapStream", int64(st.cells("stream")), gridCells)
-			for _, m := range []string{"none", "ferr", "serr", "both", "close", "outer"} {
+			for _, m := range []string{"none", "ferr", "serr", "both", "close", "outer", "blockferr", "blockclose"} {
 				r.Floor("MapStream cases with fault plan "+m, r.Table("stream plan", m), 20)
 			}
 			for _, m := range []string{"ignore", "honour", "block"} {
@@ -95,6 +102,10 @@ func main() {
 			r.Floor("cases in which f completions were out of source order", r.Table("reorder", "cases with out-of-order completion"), 50)
 			r.Floor("Next calls that returned the per-call context's error", r.Table("ctx expiry", "Next returned ctx.Err()"), 20)
 			r.Floor("Close calls made while an f was running", r.Table("close", "f running when Close was called"), 20)
+			r.Floor("MapIterator cases in which the source really waited for the consumer", r.Table("consumer-dependent source", "iter cases with a real wait"), 20)
+			r.Floor("MapStream cases in which the source really waited for the consumer", r.Table("consumer-dependent source", "stream cases with a real wait"), 20)
+			r.Floor("f failed while the source was blocked in Next until ctx done", r.Table("blocking source", "cases in which the source blocked until its ctx was done (blockferr)"), 20)
+			r.Floor("Close while the source was blocked in Next until ctx done", r.Table("blocking source", "cases in which the source blocked until its ctx was done (blockclose)"), 10)
 			r.Floor("errors surfaced that f returned", r.Table("stream error", "from f"), 20)
 			r.Floor("errors surfaced that the source returned", r.Table("stream error", "from source"), 20)
 		}
@@ -120,8 +131,13 @@ type plan struct {
 	Expiry   bool   `json:"ctx_expiry"`
 	SrcCtx   bool   `json:"source_honours_ctx"`
 	Strag    int    `json:"straggler"` // -1: none
-	P        int    `json:"effective_parallelism"`
-	Bound    int    `json:"bound"`
+	// LockD >= 0: a consumer-dependent source: its pull number m (0-based) only returns once the
+	// consumer has received m-LockD results (always satisfiable: those results only need items < m).
+	LockD int `json:"source_waits_for_consumer_lag"`
+	// SrcBlockAt >= 0: after that many items the source's Next blocks until its ctx is done.
+	SrcBlockAt int `json:"source_blocks_after"`
+	P          int `json:"effective_parallelism"`
+	Bound      int `json:"bound"`
 
 	vals     []int
 	inv      []int
@@ -154,7 +170,7 @@ func imin(a, b int) int {
 func mkPlan(c *vkit.Case, api string) *plan {
 	rnd := c.Rand
 	g := c.Index % gridCells
-	pl := &plan{API: api, N: lens[g%5], Par: pars[(g/5)%5], Buf: bufs[g/25], SrcErrAt: -1, CloseAt: -1, OuterAt: -1, Strag: -1, FMode: "ignore", Mode: "none"}
+	pl := &plan{API: api, N: lens[g%5], Par: pars[(g/5)%5], Buf: bufs[g/25], SrcErrAt: -1, CloseAt: -1, OuterAt: -1, Strag: -1, LockD: -1, SrcBlockAt: -1, FMode: "ignore", Mode: "none"}
 	n := pl.N
 	pl.P = pl.Par
 	if pl.P <= 0 {
@@ -222,12 +238,19 @@ func mkPlan(c *vkit.Case, api string) *plan {
 			pl.Strag = rnd.Intn(n)
 		}
 	}
+	if rnd.Bool(0.22) {
+		pl.LockD = vkit.Pick(rnd, []int{0, 0, 0, 1, 1, 2, imax(pl.beff-1, 0), pl.beff})
+	}
 	// Keep the nominal cost of a case around 30 ms whatever the parallelism.
 	sum := 0
 	for _, l := range pl.lat {
 		sum += int(l)
 	}
-	if budget := 30000 * pl.P; sum > budget {
+	conc := pl.P
+	if pl.LockD >= 0 {
+		conc = imin(conc, pl.LockD+1)
+	}
+	if budget := 30000 * conc; sum > budget {
 		for i := range pl.lat {
 			pl.lat[i] = int32(int(pl.lat[i]) * budget / sum)
 		}
@@ -265,8 +288,8 @@ func mkPlan(c *vkit.Case, api string) *plan {
 	}
 
 	if api == "stream" {
-		mode := vkit.Pick(rnd, []string{"none", "none", "ferr", "ferr", "serr", "serr", "both", "close", "close", "close", "close", "outer"})
-		if n == 0 && (mode == "ferr" || mode == "both" || mode == "outer") {
+		mode := vkit.Pick(rnd, []string{"none", "none", "ferr", "ferr", "serr", "serr", "both", "close", "close", "close", "close", "outer", "blockferr", "blockferr", "blockclose"})
+		if n == 0 && (mode == "ferr" || mode == "both" || mode == "outer" || mode == "blockferr") {
 			mode = "serr"
 		}
 		pl.Mode = mode
@@ -309,6 +332,31 @@ func mkPlan(c *vkit.Case, api string) *plan {
 		if mode == "outer" {
 			pl.OuterAt = pos(n - 1)
 		}
+		if mode == "blockferr" {
+			// The source hands out k >= 1 items and then has nothing to deliver until its context
+			// is done; f fails on an item that was handed out.
+			pl.SrcBlockAt = 1 + pos(n-1)
+			k := 1
+			if rnd.Bool(0.25) {
+				k = 2
+			}
+			for i := 0; i < k; i++ {
+				j := pos(pl.SrcBlockAt - 1)
+				if !pl.fail[j] {
+					pl.fail[j] = true
+					pl.errF[j] = fmt.Errorf("verif: injected f error at index %d", j)
+					pl.FailAt = append(pl.FailAt, j)
+				}
+			}
+			if rnd.Bool(0.3) {
+				pl.FMode = "honour"
+			}
+		}
+		if mode == "blockclose" {
+			pl.SrcBlockAt = pos(n)
+			pl.CloseAt = pos(pl.SrcBlockAt)
+			pl.FMode = vkit.Pick(rnd, []string{"ignore", "honour", "block"})
+		}
 		pl.Expiry = rnd.Bool(0.3)
 		pl.SrcCtx = rnd.Bool(0.5)
 		pl.ctxMode = make([]uint8, 64)
@@ -339,6 +387,12 @@ func mkPlan(c *vkit.Case, api string) *plan {
 		if pl.SrcErrAt >= 0 {
 			goal = imin(goal, pl.SrcErrAt)
 		}
+		if pl.SrcBlockAt >= 0 {
+			goal = imin(goal, pl.SrcBlockAt)
+		}
+		if pl.LockD >= 0 {
+			goal = imin(goal, pl.Strag+pl.LockD+1)
+		}
 		pl.gateGoal = int64(goal)
 	}
 	return pl
@@ -360,13 +414,40 @@ func bucket(k, n int) string {
 	return "mid"
 }
 
+// srcDesc describes the source's behaviour for messages.
+func (pl *plan) srcDesc() string {
+	d := "plain"
+	if pl.LockD >= 0 {
+		d = fmt.Sprintf("pull m waits until the consumer has received m-%d results", pl.LockD)
+	}
+	if pl.SrcBlockAt >= 0 {
+		d += fmt.Sprintf("; blocks in Next until ctx is done after %d items", pl.SrcBlockAt)
+	}
+	if pl.SrcErrAt >= 0 {
+		d += fmt.Sprintf("; fails after %d items", pl.SrcErrAt)
+	}
+	return d
+}
+
+func lagBucket(pl *plan) string {
+	switch d := pl.LockD; {
+	case d < 0:
+		return "-"
+	case d <= 2:
+		return strconv.Itoa(d)
+	case d == pl.beff-1:
+		return "B-1"
+	}
+	return "B"
+}
+
 func (pl *plan) key() string {
 	fa := "-"
 	if len(pl.FailAt) > 0 {
 		fa = fmt.Sprintf("%dx%s", len(pl.FailAt), bucket(pl.FailAt[0], pl.N))
 	}
-	return fmt.Sprintf("%s|%d|%d/%d|%d|%s|%s|%s|f%s|s%s|c%s|%s|o%s|x%v|g%v", pl.API, pl.N, pl.Par, pl.P, pl.Buf, pl.Lat, pl.Pace, pl.Mode,
-		fa, bucket(pl.SrcErrAt, pl.N), bucket(pl.CloseAt, pl.N), pl.FMode, bucket(pl.OuterAt, pl.N), pl.Expiry, pl.Strag >= 0)
+	return fmt.Sprintf("%s|%d|%d/%d|%d|%s|%s|%s|f%s|s%s|c%s|%s|o%s|x%v|g%v|l%s|b%s", pl.API, pl.N, pl.Par, pl.P, pl.Buf, pl.Lat, pl.Pace, pl.Mode,
+		fa, bucket(pl.SrcErrAt, pl.N), bucket(pl.CloseAt, pl.N), pl.FMode, bucket(pl.OuterAt, pl.N), pl.Expiry, pl.Strag >= 0, lagBucket(pl), bucket(pl.SrcBlockAt, pl.N))
 }
 
 // ---------------------------------------------------------------------------------------------
@@ -400,8 +481,11 @@ type run struct {
 	srcInClose      atomic.Int32
 	srcNextDuring   atomic.Int64
 
-	got   atomic.Int64 // results received so far (for the witness of a stuck run)
-	phase atomic.Value // string
+	got       atomic.Int64  // results received so far (the consumer-dependent source waits on it)
+	progress  chan struct{} // 1-slot wake-up for the single source goroutine
+	srcWaited atomic.Int64  // pulls that really had to wait for the consumer
+	srcBlocks atomic.Int64  // Next calls that blocked until ctx was done
+	phase     atomic.Value  // string
 
 	mu    sync.Mutex
 	order []int32 // completion order of f
@@ -409,7 +493,7 @@ type run struct {
 }
 
 func newRun(pl *plan) *run {
-	r := &run{pl: pl, fCalls: make([]atomic.Int32, pl.N), fErrRet: make([]atomic.Bool, pl.N)}
+	r := &run{pl: pl, fCalls: make([]atomic.Int32, pl.N), fErrRet: make([]atomic.Bool, pl.N), progress: make(chan struct{}, 1)}
 	r.phase.Store("start")
 	return r
 }
@@ -430,6 +514,43 @@ func delay(us int32) {
 	default:
 		time.Sleep(time.Duration(us) * time.Microsecond)
 	}
+}
+
+// received is called by the consumer after every result.
+func (r *run) received(got int) {
+	r.got.Store(int64(got))
+	select {
+	case r.progress <- struct{}{}:
+	default:
+	}
+}
+
+// waitConsumer makes pull number pos of a consumer-dependent source wait until the consumer has
+// received pos-LockD results (a channel wait, so a deadlock shows as parked goroutines). The got
+// counter is stored before the wake-up token is offered and re-read after every token, so no
+// wake-up is lost. ctx is nil for the iterator source.
+func (r *run) waitConsumer(ctx context.Context, pos int) error {
+	if r.pl.LockD < 0 {
+		return nil
+	}
+	need := int64(pos - r.pl.LockD)
+	waited := false
+	for r.got.Load() < need {
+		waited = true
+		if ctx == nil {
+			<-r.progress
+			continue
+		}
+		select {
+		case <-r.progress:
+		case <-ctx.Done():
+			return ctx.Err()
+		}
+	}
+	if waited {
+		r.srcWaited.Add(1)
+	}
+	return nil
 }
 
 // pulled is the online in-flight check; it runs inside the source's Next when an item is handed out.
@@ -525,6 +646,7 @@ type srcIter struct {
 func (s *srcIter) Next() (int, bool) {
 	pl := s.r.pl
 	delay(pl.srcLat[s.pos%len(pl.srcLat)])
+	_ = s.r.waitConsumer(nil, s.pos)
 	if s.pos >= pl.N {
 		return 0, false
 	}
@@ -556,6 +678,16 @@ func (s *srcStream) Next(ctx context.Context) (int, error) {
 		return 0, ctx.Err()
 	}
 	delay(pl.srcLat[s.pos%len(pl.srcLat)])
+	if pl.SrcBlockAt >= 0 && s.pos >= pl.SrcBlockAt {
+		r.srcBlocks.Add(1)
+		<-ctx.Done()
+		r.srcCtxErrRet.Add(1)
+		return 0, ctx.Err()
+	}
+	if err := r.waitConsumer(ctx, s.pos); err != nil {
+		r.srcCtxErrRet.Add(1)
+		return 0, err
+	}
 	if pl.SrcErrAt >= 0 && s.pos >= pl.SrcErrAt {
 		r.srcErrRet.Store(true)
 		return 0, errSrc
@@ -629,7 +761,7 @@ func (r *run) iterScenario(o *outcome) {
 			return
 		}
 		got++
-		r.got.Store(int64(got))
+		r.received(got)
 		delay(pl.paceLat[got%len(pl.paceLat)])
 	}
 	o.got = got
@@ -716,7 +848,7 @@ func (r *run) streamScenario(o *outcome) {
 				return
 			}
 			got++
-			r.got.Store(int64(got))
+			r.received(got)
 			delay(pl.paceLat[got%len(pl.paceLat)])
 			continue
 		}
@@ -951,8 +1083,8 @@ func runCase(c *vkit.Case, api string, st *stats) {
 	case vkit.AwaitStuck:
 		ph, _ := r.phase.Load().(string)
 		name := map[string]string{"iter": "MapIterator", "stream": "MapStream"}[api]
-		c.Violation("stuck-"+api+"-"+ph, fmt.Sprintf("%s(len=%d, parallelism=%d, bufferSize=%d, latency=%s, plan=%s): the consumer's %s call can never return: after %d results every goroutine of the scenario is parked (taken=%d)",
-			name, pl.N, pl.Par, pl.Buf, pl.Lat, pl.Mode, ph, r.got.Load(), r.taken.Load()), witness(map[string]any{"goroutines": clip(dump, 8000)}))
+		c.Violation("stuck-"+api+"-"+ph, fmt.Sprintf("%s(len=%d, parallelism=%d, bufferSize=%d, latency=%s, plan=%s, source=%s): the consumer's %s call can never return: after %d results every goroutine of the scenario is parked (taken=%d)",
+			name, pl.N, pl.Par, pl.Buf, pl.Lat, pl.Mode, pl.srcDesc(), ph, r.got.Load(), r.taken.Load()), witness(map[string]any{"goroutines": clip(dump, 8000)}))
 		return
 	case vkit.AwaitInconclusive:
 		rep.Inconclusive(fmt.Sprintf("case %s (%s) did not finish within the hard limit although goroutines were still runnable", c.ID(), pl.key()))
@@ -974,7 +1106,7 @@ func runCase(c *vkit.Case, api string, st *stats) {
 		r.mu.Unlock()
 	}
 	if v != nil {
-		what := fmt.Sprintf("%s [len=%d parallelism=%d bufferSize=%d latency=%s pace=%s plan=%s close_after=%d f_ctx=%s]", v.what, pl.N, pl.Par, pl.Buf, pl.Lat, pl.Pace, pl.Mode, pl.CloseAt, pl.FMode)
+		what := fmt.Sprintf("%s [len=%d parallelism=%d bufferSize=%d latency=%s pace=%s plan=%s close_after=%d f_ctx=%s source=%s]", v.what, pl.N, pl.Par, pl.Buf, pl.Lat, pl.Pace, pl.Mode, pl.CloseAt, pl.FMode, pl.srcDesc())
 		c.Violation(v.sig, what, witness(v.extra))
 		return
 	}
@@ -1034,6 +1166,16 @@ func runCase(c *vkit.Case, api string, st *stats) {
 	}
 	if multi > 0 {
 		rep.Count("f invocations (recorded, not judged)", "items given to f more than once", multi)
+	}
+	if pl.LockD >= 0 {
+		rep.Count("consumer-dependent source", api+" cases, lag "+lagBucket(pl), 1)
+		rep.Count("consumer-dependent source", api+" pulls that had to wait for the consumer", int(r.srcWaited.Load()))
+		if r.srcWaited.Load() > 0 {
+			rep.Count("consumer-dependent source", api+" cases with a real wait", 1)
+		}
+	}
+	if r.srcBlocks.Load() > 0 {
+		rep.Count("blocking source", "cases in which the source blocked until its ctx was done ("+pl.Mode+")", 1)
 	}
 	if api == "stream" {
 		rep.Count("stream plan", pl.Mode, 1)
